@@ -281,8 +281,17 @@ func checkC14() *CheckDef {
 		// containers of two elements (permuted order matters for slice-backed sets)
 		for _, h := range genHarnesses(c, "gH14g", map[string]int{"depth": 2, "simple": 2, "sameshape": 1, "k": 2}, 40000000) {
 			name := c.Gen.Types[h.Params["type"]]
-			if strings.HasSuffix(name, ".OneSliceSet") || strings.HasSuffix(name, ".OneStructSet") {
+			if strings.HasSuffix(name, ".OneSliceSet") || strings.HasSuffix(name, ".OneStructSet") || strings.HasSuffix(name, ".OneListKeyMap") || strings.HasSuffix(name, ".OneStructKeyMap") {
 				out = append(out, h)
+			}
+		}
+		// independent shapes (absent vs empty vs one element) for the small type
+		// whose fields are typedefs of containers, in the quick tier too
+		if tier != "thorough" {
+			for _, h := range genHarnesses(c, "gH14g", map[string]int{"depth": 2, "simple": 0, "sameshape": 0}, 20000000) {
+				if strings.Contains(c.Gen.Types[h.Params["type"]], ".TypedefdOpt") {
+					out = append(out, h)
+				}
 			}
 		}
 		for _, h := range genHarnesses(c, "gH14t", map[string]int{"depth": 1, "simple": 1}, 20000000) {
@@ -293,7 +302,7 @@ func checkC14() *CheckDef {
 	baseB := c.Bounds
 	c.Bounds = func(tier string) map[string]interface{} {
 		m := baseB(tier)
-		m["generated_equals"] = "every corpus type: x, y (and z) obtained by decoding reference encodings of valid values (quick: y has the shape of x with independent leaves; thorough: also independent shapes) (containers <= 1 element, nested values all-absent or all-present; plus, for the types OneSliceSet and OneStructSet, a configuration with exactly 2 elements per container, all fields present); Equals vs structural oracle vs wire.ValuesAreEqual; nil receivers/arguments"
+		m["generated_equals"] = "every corpus type: x, y (and z) obtained by decoding reference encodings of valid values (quick: y has the shape of x with independent leaves; thorough: also independent shapes) (containers <= 1 element, nested values all-absent or all-present; plus, for the types OneSliceSet, OneStructSet, OneListKeyMap and OneStructKeyMap (slice-backed sets, unhashable map keys), a configuration with exactly 2 elements per container, all fields present; and for TypedefdOptA/B (optional typedefs of list/binary/set/map) independent shapes in the quick tier too); Equals vs structural oracle vs wire.ValuesAreEqual; nil receivers/arguments"
 		m["outside"] = "NaN and duplicates (excluded by the statement); larger containers; programs outside the corpus"
 		return genBounds(c, m)
 	}
@@ -508,6 +517,12 @@ func checkC17() *CheckDef {
 			for _, l := range b.probe {
 				out = append(out, &sym.HarnessConfig{Name: "h17", Pkg: genPkg, Params: map[string]int{"l": l, "plugins": 1, "files": 1, "fixedlen": 1}, Budget: 5000000, AllMapOrders: true})
 			}
+			// --no-recurse and --output-file take another branch of Generate
+			for mode := 1; mode <= 2; mode++ {
+				out = append(out, &sym.HarnessConfig{Name: "h17", Pkg: genPkg, Params: map[string]int{"l": 2, "plugins": 2, "files": 1, "fixedlen": 0, "mode": mode}, Budget: 5000000, AllMapOrders: true})
+			}
+			// a response with a second file next to the one that may collide with the core path
+			out = append(out, &sym.HarnessConfig{Name: "h17", Pkg: genPkg, Params: map[string]int{"l": 1, "plugins": 1, "files": 1, "fixedlen": 1, "second": 1}, Budget: 5000000, AllMapOrders: true})
 			out = append(out, &sym.HarnessConfig{Name: "h17m", Pkg: "go.uber.org/thriftrw", Params: map[string]int{"l": 3}, Budget: 5000000})
 			out = append(out, &sym.HarnessConfig{Name: "h17_witness", Pkg: genPkg, Params: map[string]int{"l": 1, "plugins": 1, "files": 1, "fixedlen": 0}, ExpectViolation: true})
 			return out
@@ -516,7 +531,7 @@ func checkC17() *CheckDef {
 			b := bounds(tier)
 			return map[string]interface{}{
 				"plugins": b.plugins, "files_per_plugin": b.files, "plugin_path_len": fmt.Sprintf("1..%d arbitrary bytes (1..%d with two plugins); plus single paths of exactly %v arbitrary bytes (the core path foo/foo.go has 10)", b.l, b.l-1, b.probe),
-				"faults": "none / core generator / each plugin", "plugin_names": "distinct, or two instances of the same plugin",
+				"faults": "none / core generator / each plugin", "modes": "recursive; --no-recurse and --output-file with paths of 1..2 bytes and two plugins", "second_file": "the path foo/foo.?? (last two bytes symbolic; the core path is foo/foo.go) together with a fixed harmless file that sorts after it in one response", "plugin_names": "distinct, or two instances of the same plugin",
 				"thrift_root": "h17m (package main): the inferred root for a file in /r/<d1> including a file in /r/<d2> or /r/<d1>/<d2>, directory names of 1..3 symbolic bytes, is an ancestor of both", "map_iteration": "all orders", "plugin_order": "all orders (concurrent.Range modelled sequentially in every order)",
 				"stubs": "generateModule (template expansion) replaced by a stub with the same path computation; os.MkdirAll/os.WriteFile replaced by recorders (textual redirection of the current gen/generate.go, used for symbolic run and native replay alike)",
 				"outside": "real file-system effects, failures inside the write loop, handshake failures (C16)",
